@@ -42,18 +42,20 @@ theorem rel_completeTables (outs : List (Nat × List Entry)) :
       (outs.map Prod.fst).Nodup →
       ∃ d1, runOk p.d (ctOps outs) = some d1 ∧ Rel { s := p.s, d := d1, c := p.c } ∧
         (∀ o ∈ outs, lookup d1.tables o.1 = some o.2) ∧
-        (∀ t, t ∉ outs.map Prod.fst → lookup d1.tables t = lookup p.d.tables t) := by
+        (∀ t, t ∉ outs.map Prod.fst → lookup d1.tables t = lookup p.d.tables t) ∧
+        d1.wals = p.d.wals ∧ d1.manifests = p.d.manifests ∧ d1.current = p.d.current := by
   induction outs with
   | nil =>
     intro p h _ _
-    exact ⟨p.d, rfl, h, fun o ho => absurd ho (by simp), fun _ _ => rfl⟩
+    exact ⟨p.d, rfl, h, fun o ho => absurd ho (by simp), fun _ _ => rfl, rfl, rfl, rfl⟩
   | cons o rest ih =>
     intro p h hfresh hnd
     obtain ⟨hok, hR⟩ := rel_completeTable h o.1 o.2 (hfresh o List.mem_cons_self)
     have hnd' : (rest.map Prod.fst).Nodup := (List.nodup_cons.mp hnd).2
     have hnot : o.1 ∉ rest.map Prod.fst := (List.nodup_cons.mp hnd).1
-    obtain ⟨d1, hrun, hR1, hl1, hl2⟩ := ih hR (fun o' ho' => hfresh o' (List.mem_cons_of_mem _ ho')) hnd'
-    refine ⟨d1, ?_, hR1, ?_, ?_⟩
+    obtain ⟨d1, hrun, hR1, hl1, hl2, hw, hm, hc⟩ :=
+      ih hR (fun o' ho' => hfresh o' (List.mem_cons_of_mem _ ho')) hnd'
+    refine ⟨d1, ?_, hR1, ?_, ?_, hw, hm, hc⟩
     · show runOk p.d (Op.completeTable o.1 o.2 :: ctOps rest) = some d1
       rw [runOk_cons hok]; exact hrun
     · intro o' ho'
@@ -317,7 +319,7 @@ theorem compact_ok {p : PState} (h : Rel p) (c : Compaction) (s' : State)
   have v := compactV_of_valid h.inv hv
   obtain ⟨hex0, hex1⟩ := inputs_exist h.inv hv
   -- 1. the output tables
-  obtain ⟨d1, hrun1, hR1, hl1, hl2⟩ := rel_completeTables c.outputs h
+  obtain ⟨d1, hrun1, hR1, hl1, hl2, _, _, _⟩ := rel_completeTables c.outputs h
     (fun o ho l f hf => v.outs_fresh o ho l f hf) v.outs_nodup
   -- membership in the new levels
   have hmem : ∀ j g, g ∈ lv s'.levels j ↔
